@@ -73,6 +73,17 @@ class UserError2(Exception):
     pass
 
 
+class EmptyBatchError(Exception):
+    """A service exception that is FALSY (it has a length: the rejected rows it carries - none this time)."""
+
+    def __init__(self, *a):
+        super(EmptyBatchError, self).__init__(*a)
+        self.rows = []
+
+    def __len__(self):
+        return len(self.rows)
+
+
 class StatefulError(Exception):
     """A service exception that carries mutable state (survives the serializer as object state)."""
 
@@ -205,7 +216,7 @@ def fresh(v):
 HOSTILE_STRINGS = [
     '', 'a', 'A', '1', 'True', 'None', ' ', 'x y', 'é', '日本', '"', "'", '\\', '\n', '\t', 'a"b', "a'b", 'a\\b',
     '{"py/tuple": [1]}', '[1, 2]', '{}', 'null', ' args=', ', kwargs=', 'input: x args=[], kwargs=[]', '#1', '.result',
-    'a/b', 'a_b', '{x}', '{', '}', 'py/object', '\u2028', '\x00', 'a' * 300, '\U0001f600', '%s', '*', '?', '[a]',
+    'a/b', 'a_b', '{x}', '{', '}', 'py/object', '\u2028', '\x00', 'a' * 300, '\U0001f600', '%s', '*', '?', '[a]', '\ud83d', 'caf\udce9.csv',
 ]
 HOSTILE_INTS = [0, 1, -1, 2, 7, 10, 255, 2 ** 31, -2 ** 31, 2 ** 63, 10 ** 30, -10 ** 30]
 HOSTILE_FLOATS = [0.0, -0.0, 1.0, -1.0, 0.5, 1e-320, 1e308, float('inf'), float('-inf'), 0.1, 2.5]
